@@ -11,6 +11,8 @@ For every crate-local instance reachable from a sampling root:
       without passing the MAX_LAMBDA comparison.
 Nothing here bounds the *number* of iterations (acceptance rates, data-bounded recurrences) — see DESIGN.md 5/C05.
 """
+CONFIGS_THOROUGH = ["serde", "release"]
+
 from cfgrules import FnInfo, draws_summary, op_locals
 from facts import span_str
 from mirutil import const_value
@@ -225,6 +227,7 @@ def run(chk, F, tier):
         else:
             chk.ok("hatch", "poisson: MAX_LAMBDA comparison dominates construction of the rejection method", detail={"instance": inst["key"]},
                    nontrivial=(inst is ps[0]))
+    return_path_rule(chk, F, tier)
     chk.notes.append("data-bounded recurrences (BTPE step 5.1, H2PE step 4.1 counting loops) are T2 loops without a constant bound; "
                      "the number of iterations is NOT decided here")
 
@@ -336,3 +339,65 @@ def _is_loop_test(fi, loop, src):
     """True if `src` is the loop header's own test (the `while` condition), not an exit inside the body."""
     h, body, backs = loop
     return src == h
+
+
+# ------------------------------------------------------------------------------------------------ R4: a return path exists
+_G5 = {}
+
+
+def _ret_family(args):
+    name, bits = args
+    import rules_c03
+    from absint import Interp, Rf, Top
+    from axioms import Axioms
+    F = _G5["F"]
+    fam = next(f for f in rules_c03.FAMILIES if f["name"] == name)
+    ax = Axioms(F)
+    out = {"family": name, "bits": bits, "cases": 0, "stuck": [], "missing": None}
+    sinst = rules_c03.find_sample_inst(F, fam["sample"], bits)
+    cases = rules_c03.envelope_cases(F, ax, fam, bits, "quick", extremes=True) if sinst else None
+    if sinst is None or cases is None:
+        out["missing"] = fam["sample"]
+        return out
+    for cname, cells, selfv in cases:
+        ip = Interp(F, ax)
+        ip.ieee = bits
+        rv, st = ip.run_root(sinst, [Rf(None, selfv, False), Rf(None, Top(), True)])
+        out["cases"] += 1
+        if st is None:
+            panics = [e for e in ip.events.values() if e.kind.startswith("panic")]
+            out["stuck"].append({"case": cname, "panics": [str(e.detail) for e in panics][:2]})
+    return out
+
+
+def return_path_rule(chk, F, tier):
+    """For every constructor outcome — including the largest finite float and the smallest subnormal as parameters, with IEEE
+    rounding/overflow of exact points — the abstract run of sample() must contain a path to `return`.  The abstract run
+    over-approximates every concrete run, so if it has no return path no stream makes sampling return: it loops forever or always panics."""
+    import multiprocessing
+    import os
+    import rules_c03
+    _G5["F"] = F
+    tasks = [(f["name"], b) for f in rules_c03.FAMILIES for b in f.get("bits", (32, 64))]
+    ncpu = min(16, os.cpu_count() or 4)
+    if ncpu > 1 and not os.environ.get("VERIF_SERIAL"):
+        with multiprocessing.get_context("fork").Pool(ncpu) as pool:
+            res = pool.map(_ret_family, tasks, chunksize=1)
+    else:
+        res = [_ret_family(t) for t in tasks]
+    total = 0
+    for r in res:
+        key = "%s:f%d" % (r["family"], r["bits"])
+        if r["missing"]:
+            chk.violation("return-path", key + ":anchor", "sampler %s not found" % r["missing"])
+            continue
+        total += r["cases"]
+        if r["stuck"]:
+            s0 = r["stuck"][0]
+            chk.violation("return-path", key, "%s::sample has no path to `return` for parameters %s (%d such case(s)%s): for these valid parameters every exit test of "
+                          "its loops fails on every stream" % (r["family"], s0["case"], len(r["stuck"]), "; it always panics: " + s0["panics"][0] if s0["panics"] else ""))
+        else:
+            chk.ok("return-path", key + ": a return path exists in all %d parameter cases (extremes included)" % r["cases"], nontrivial=True)
+    chk.evaluations += total
+    chk.extra["return_path_cases"] = total
+    chk.floor("return-path parameter cases", total, 500)
